@@ -177,6 +177,20 @@ func runC17(r *Run, rng *rand.Rand, thorough bool) {
 			r.Assert(l1 != nil && l2 != nil && l1.Equals(l2), "ECPoint.Add/associative", "add-associative", nil)
 			r.Assert(a.ScalarMult(k2).Equals(crypto.ScalarBaseMult(c, new(big.Int).Mul(k1, k2))), "ECPoint.ScalarMult/compat", "k2(k1G)=(k1k2)G", nil)
 			r.Assert(G.ScalarMult(k1).Equals(a), "ECPoint.ScalarMult/base", "ScalarMult(G,k)=ScalarBaseMult(k)", nil)
+			// Equals is equality of both coordinates (and of the curve): the inverse, which shares one coordinate, differs
+			{
+				fp := c.Params().P
+				nx, ny := a.X(), new(big.Int).Mod(new(big.Int).Neg(a.Y()), fp)
+				if tag == "ed" {
+					nx, ny = new(big.Int).Mod(new(big.Int).Neg(a.X()), fp), a.Y()
+				}
+				neg := crypto.NewECPointNoCurveCheck(c, nx, ny)
+				same := crypto.NewECPointNoCurveCheck(c, a.X(), a.Y())
+				r.Assert(a.Equals(same) && same.Equals(a), "ECPoint.Equals/same", "equals-reflexive-on-copies", nil)
+				r.Assert(!a.Equals(neg) && !neg.Equals(a), "ECPoint.Equals/inverse", "point-differs-from-its-inverse", func() string { return ePoint(a) + " vs " + ePoint(neg) })
+				r.Assert(!a.Equals(b) || k1.Cmp(k2) == 0, "ECPoint.Equals/other", "different-points-differ", nil)
+				r.Assert(!a.Equals(nil), "ECPoint.Equals/nil", "nil-is-not-equal", nil)
+			}
 		}
 		// doors: constructor with off-curve / non-canonical coordinates
 		other := "ed"
